@@ -212,6 +212,25 @@ def gen_canon(rng, spec: LangSpec, max_items=4, depth=2):
     return items
 
 
+def closure_estimate(spec: LangSpec, t, up=True):
+    """upper bound on the number of types `Language.expand_canon` reaches from `t` in one direction (with Top/Bottom included):
+    the library enumerates every combination of sub/supertypes of the parameters, so the closure of a type nested three deep with
+    parameters of arity 2-3 can run to millions of types and minutes of construction - nothing a property is stated about"""
+    o, args = t
+    if not args:
+        return len(spec.ancestors(o) if up else spec.descendants(o)) + 2
+    n = 1
+    for a, co in zip(args, spec.variance(o)):
+        n *= closure_estimate(spec, a, up if co else not up) + 1
+    return n + 1
+
+
+def bound_canon(spec: LangSpec, canon, limit=20000):
+    """drop the listed types whose closure estimate (either direction) exceeds `limit` (deterministic; keeps at least the base types)"""
+    kept = [t for t in canon if max(closure_estimate(spec, t, True), closure_estimate(spec, t, False)) <= limit]
+    return kept or [t for t in canon if not t[1]] or [(spec.bases()[0], ())]
+
+
 def py_to_data(t, ops):
     """concrete transforge type -> data tuple"""
     t = t.follow()
